@@ -337,6 +337,23 @@ func genChain(r *rng, o chainOpts) *ccase {
 		}
 		c.provs = append(c.provs, p)
 	}
+	// NonFinal: list the final function before its last k providers, which are marked NonFinal
+	if len(c.provs) >= 3 && r.chance(1, 7) {
+		k := 1 + r.intn(3)
+		if k > len(c.provs)-1 {
+			k = len(c.provs) - 1
+		}
+		np := len(c.provs)
+		fin := c.provs[np-1]
+		tailp := append([]*cprovider{}, c.provs[np-1-k:np-1]...)
+		for _, q := range tailp {
+			q.annots |= aNonFinal
+		}
+		for _, q := range c.provs {
+			q.cluster = 0 // a cluster must stay a run of adjacent providers
+		}
+		c.provs = append(append(c.provs[:np-1-k:np-1-k], fin), tailp...)
+	}
 	if wantErr && !containsInt(invOuts, errT) && r.chance(85, 100) {
 		invOuts = append(invOuts, errT)
 		// the final function may also return error then
